@@ -33,6 +33,8 @@ def one(kind, sid, prop, seed):
         env = dict(os.environ, VMON_REPO=wt, VERIF_SEED=str(seed))
         r = subprocess.run([PY, "-m", "vmon", prop, "--tier", "quick", "--no-evidence"], cwd=ROOT, env=env, capture_output=True, text=True, timeout=5400)
         mech = [ln.strip()[len("mechanism: "):].split(" (x")[0] for ln in r.stdout.splitlines() if ln.strip().startswith("mechanism:")]
+        if r.returncode == 2:
+            mech = [ln.strip()[:160] for ln in r.stdout.splitlines() if ln.startswith("INCONCLUSIVE")][:3]
         return kind, sid, {0: "held", 1: "VIOLATION", 2: "INCONCLUSIVE"}.get(r.returncode, f"rc={r.returncode}"), mech[:3], round(time.time() - t0)
     finally:
         subprocess.run(["git", "-C", "/repo", "worktree", "remove", "--force", wt], capture_output=True)
